@@ -44,8 +44,8 @@ META = {
     'assumptions': ['re-entrancy through user callbacks is covered by '
                     'C09-D4, not here'],
     'decided': ['D1 ownership of the pending table',
-                'D2 register-before-send with timer',
-                'D3 completion => removed and timer cancelled',
+                'D2 register-before-send with timer; a call issued on a lost connection fails at once and is not registered',
+                'D3 completion => removed (before the Deferred fires) and timer cancelled',
                 'D4 correlation keys', 'D5 error discipline (incl. no value '
                 'delivered before the declared signature was compared)',
                 'D7 reply-value convention on recognised paths'],
@@ -199,7 +199,22 @@ def run(ctx):
     reg = prog.func(CLS + '.callRemoteMessage')
     mcall = ('param', reg.params()[1])
     timer_cb = None
-    n_reg = 0
+    n_reg = n_lost = 0
+    # the loss marker: connectionLost stores its reason on the connection
+    lost_markers = set()
+    clost = prog.func(CLS + '.connectionLost')
+    for node in prog._iter_scope(clost.node):
+        if isinstance(node, ast.Assign) and \
+                isinstance(node.value, ast.Name) and \
+                node.value.id == clost.params()[1]:
+            for t in node.targets:
+                if isinstance(t, ast.Attribute) and \
+                        isinstance(t.value, ast.Name) and \
+                        t.value.id == 'self':
+                    lost_markers.add(t.attr)
+    ctx.ob('C08.D2', clost.qualname, 'loss-is-recorded', bool(lost_markers),
+           'connectionLost must record the loss on the connection so that a '
+           'later call can be failed instead of registered')
     for p in paths_of(reg.qualname):
         sets = [ev for ev in p.trace if ev[0] == 'setsub' and is_table(ev[1])]
         sends = [i for i, ev in enumerate(p.trace) if ev[0] == 'call' and
@@ -214,6 +229,34 @@ def run(ctx):
             continue
         laters = [ev[1] for ev in p.trace if ev[0] == 'call' and
                   (ev[1][1] or '').endswith('callLater')]
+        lost = None
+        for c, pol in p.cond:
+            if kind(c) == 'cmp' and kind(c[2]) == 'attr' and \
+                    c[2][2] in lost_markers and c[3] == NONE and \
+                    c[1] in ('is', 'is not', '==', '!='):
+                lost = (c[1] in ('is not', '!=')) == pol
+                marker = c[2]
+            elif kind(c) == 'attr' and c[2] in lost_markers:
+                lost = pol
+                marker = c
+        if expect and lost:
+            # issued on a lost connection: no reply can arrive
+            n_lost += 1
+            ok = not sets and not laters and not sends and \
+                p.outcome == 'return' and kind(p.value) == 'call' and \
+                (p.value[1] or '').endswith('defer.fail') and \
+                p.value[3] == (marker,)
+            ctx.ob('C08.D2', reg.qualname, 'lost=>failed-at-once', ok,
+                   'a call issued on a lost connection must fail at once '
+                   'with the loss reason, without an entry, a timer or a '
+                   'message')
+            continue
+        if expect and lost_markers and lost is None:
+            ctx.ob('C08.D2', reg.qualname, 'registers-only-if-not-lost',
+                   False, 'a call is registered without testing that the '
+                   'connection is not lost: after the loss it stays pending '
+                   'for ever (and its timer fires TimeOut)')
+            continue
         if expect:
             n_reg += 1
             ok = len(sets) == 1 and len(sends) == 1 and \
@@ -266,6 +309,8 @@ def run(ctx):
                    'entry or a timer')
     if n_reg == 0:
         raise AnalysisError('callRemoteMessage: no expect-reply path found')
+    ctx.ob('C08.D2', reg.qualname, 'lost-path-exists', n_lost > 0,
+           'no path of callRemoteMessage handles the lost connection')
     if timer_cb is None:
         ctx.ob('C08.D2', reg.qualname, 'deadline-handler-registered', False,
                'no deadline handler is registered with callLater')
@@ -296,6 +341,31 @@ def run(ctx):
                     slot = '%s@%s' % (how, info['how'])
                     ok = removed(trace, outer if info['how'].startswith(
                         'iter') else (), info['key'])
+                    if ok:
+                        # ... and BEFORE the Deferred fires: firing runs the
+                        # caller's code, which may re-enter (a second loss
+                        # notification, a new call) and must not find the
+                        # completed call still pending
+                        fire_ix = [i for i, ev in enumerate(trace)
+                                   if ev[0] == 'call' and ev[1] is c][0]
+                        if info['how'].startswith('iter'):
+                            loop_ix = [i for i, ev in enumerate(outer)
+                                       if ev[0] == 'loop' and
+                                       any(bp.trace is trace for bp in ev[4])]
+                            before = removed(
+                                trace[:fire_ix],
+                                outer[:loop_ix[0]] if loop_ix else outer,
+                                info['key'])
+                        else:
+                            before = removed(trace[:fire_ix], (),
+                                             info['key']) or \
+                                info['how'] == 'pop'
+                        ctx.ob('C08.D3', q, 'removed-before-fire:' + slot,
+                               before, 'the entry is removed only AFTER its '
+                               'Deferred fired (%s): code run by the Deferred '
+                               'still finds the completed call pending, and a '
+                               're-entrant completion fires it a second time'
+                               % how)
                     ctx.ob('C08.D3', q, 'fire=>removed:' + slot, ok,
                            'a pending call is completed (%s) but its entry '
                            'is not removed from the table on this path'
